@@ -221,6 +221,11 @@ def run(ctx, w):
             ctx.check(ok, "P5", "%s[1049]" % v, "%s, 1049 arm: must %s (the saved contexts travel with the buffers, so the order decides which screen's context is used)" % (h, what),
                       loc=w.site_loc(a[0]) if a else w.fn_loc(h), sample={"handler": h, "order": [x.callee for x in a + c]})
     ctx.floor("P5", 2, "1049 orderings")
+    from rules import c06
+    c06.role_limits(ctx, w, S, R, "P9")
+    from rules import c02
+    c02.relayout_clears_wrap(ctx, w, S, R, "P10")
+    c02.row_units(ctx, w, S, R, "P11")
 
     relayout_after_switch(ctx, w, S, R, rule="P7")
     from rules import c14
